@@ -1,4 +1,4 @@
-(* REGENERATED from src/mxlpy/fit/abstract.py, fit/routines.py, minimizers/_scipy.py by harness/c20_gen.py
+(* REGENERATED from src/mxlpy/fit/abstract.py, fit/routines.py, minimizers/_scipy.py, model.py (batch editors) by harness/c20_gen.py
    -- do not edit.  Unrecognised shapes yield *Unknown / false, which breaks C20_fit_facts_pinned. *)
 From Coq Require Import List QArith String.
 From Fit Require Import LossOps FitModel.
@@ -9,10 +9,10 @@ Definition gen_fit_facts : fit_facts :=
     (mkResidualFacts [UpdY0; UpdPars; UpdVars] SelDataIndex FailInf true true)
     (mkResidualFacts [UpdY0; UpdPars; UpdVars] SelDataColumns FailInf true true)
     (mkResidualFacts [UpdY0; UpdPars; UpdVars] SelDataColumns FailInf true true)
-    (mkWrapperFacts true true true true true true true)
-    (mkWrapperFacts true true true true true true true)
-    (mkWrapperFacts true true true true true true true)
-    (1 # 1000000) (1000000 # 1) true true true.
+    (mkWrapperFacts true true true true true true true [])
+    (mkWrapperFacts true true true true true true true [])
+    (mkWrapperFacts true true true true true true true [])
+    (1 # 1000000) (1000000 # 1) true true true BatchValidated BatchValidated.
 Definition gen_source_digests : list (string * string) := [
   ("_Settings", "7ef6c219b20dd642");
   ("steady_state_residual", "891bbf419b57fa68");
